@@ -6,7 +6,7 @@ wait / exit) for Engine I.
 
 Nothing here looks at line numbers or source text to decide anything.
 """
-from .interp import Interp, Obj, Sym, Arr, NoReturn, _Ref, _UNINIT
+from .interp import Interp, Obj, Sym, Arr, NoReturn, _Ref, _UNINIT, _FnRef
 from .build import AnalysisBroken
 
 
@@ -161,7 +161,19 @@ SYS_ENUMERATORS = {'P_ALL': 0, 'P_PID': 1, 'P_PGID': 2, 'P_PIDFD': 3,
                    'CLD_EXITED': 1, 'CLD_KILLED': 2, 'CLD_DUMPED': 3, 'CLD_TRAPPED': 4, 'CLD_STOPPED': 5, 'CLD_CONTINUED': 6}
 WNOHANG, WEXITED, WNOWAIT = 1, 4, 0x01000000
 SIGCHLD = 17
-HARD_EXIT = ('_exit', '_Exit', 'abort', 'quick_exit')      # terminate without running atexit handlers
+HARD_EXIT = ('_exit', '_Exit', 'abort', 'quick_exit', '__builtin_trap')      # terminate without running atexit handlers
+# a process that sends ITSELF a signal whose disposition is the default action "terminate" ends like a hard exit:
+# no atexit handler runs.  name -> (index of the target argument or None = always the calling process, index of the signal)
+SELF_SIGNAL_FNS = {'raise': (None, 0), 'gsignal': (None, 0), 'pthread_kill': (None, 1),
+                   'kill': (0, 1), 'sigqueue': (0, 1), 'killpg': (0, 1), 'tgkill': (0, 2)}
+# signal(2)-style disposition setters: name -> (signal index, handler index); sigaction takes a struct
+SIGNAL_SET_FNS = {'signal': (0, 1), 'bsd_signal': (0, 1), 'sysv_signal': (0, 1), '__sysv_signal': (0, 1), 'sigset': (0, 1)}
+SIGACTION_FNS = ('sigaction',)
+DISPOSITION_UNMODELLED = ('sigvec', 'sigignore', 'signalfd', 'sigblock', 'sigsetmask', 'sigprocmask', 'pthread_sigmask', 'sighold')
+# Linux signal numbers whose default action does not terminate the process (ignore / continue / stop)
+SIG_DEFAULT_HARMLESS = {17: 'SIGCHLD', 18: 'SIGCONT', 23: 'SIGURG', 28: 'SIGWINCH', 19: 'SIGSTOP', 20: 'SIGTSTP', 21: 'SIGTTIN', 22: 'SIGTTOU'}
+SIG_UNBLOCKABLE = (9, 19)
+SELF_PID, PGRP = 1000, 999          # pid of the driver (parent side), process group shared by driver and children
 SOFT_EXIT = ('exit',)
 ERROR_FNS = ('error', 'error_at', 'error_tok')              # R14.7: end in exit(1)
 PID = 4242
@@ -221,6 +233,14 @@ def make_interp(P, unit, opaque=(), extra_models=None, loop_limit=1, globals_=No
         st['waits'] += 1
         if st['children'] <= 0:
             ctx.note('%s()=-1 [no child]' % name)
+            return -1
+        if st.get('disp', {}).get(SIGCHLD) == 'ign' or st.get('disp_all', 'dfl') != 'dfl':
+            if st.get('disp', {}).get(SIGCHLD) != 'ign':
+                raise AnalysisBroken('%s with an unknown SIGCHLD disposition (%s:%d)' % (name, it.unit.name, n.line))
+            # SIGCHLD ignored: children are reaped by the kernel, wait blocks until all are gone and fails with ECHILD
+            st['children'] = 0
+            st['sigchld_ignored'] = True
+            ctx.note('%s()=-1 [SIGCHLD is ignored: no status is delivered]' % name)
             return -1
         if oidx is not None:
             opts = args[oidx] if len(args) > oidx else 0
@@ -326,6 +346,155 @@ def make_interp(P, unit, opaque=(), extra_models=None, loop_limit=1, globals_=No
         ctx.note('%s fails' % n.callee())
         return -1
 
+    # ---- signals: dispositions set on the path, and signals a process sends (to itself, its group, its child, its parent)
+    def own_pid(st):
+        return PID if st['role'] == 'child' else SELF_PID
+
+    def m_getpid(it, ctx, n, args):
+        return own_pid(proc_state(ctx))
+
+    def m_getppid(it, ctx, n, args):
+        st = proc_state(ctx)
+        return SELF_PID if st['role'] == 'child' else Sym('g:ppid-of-driver', 'int')
+
+    def m_getpgrp(it, ctx, n, args):
+        return PGRP
+
+    def _handler_kind(h):
+        if isinstance(h, bool):
+            return 'unknown'
+        if isinstance(h, int):
+            return 'dfl' if h == 0 else ('ign' if h == 1 else 'unknown')
+        if isinstance(h, _FnRef):
+            return ('fn', h.name)
+        return 'unknown'
+
+    def m_signal(it, ctx, n, args):
+        st = proc_state(ctx)
+        sidx, hidx = SIGNAL_SET_FNS[n.callee()]
+        sig = args[sidx] if len(args) > sidx else None
+        h = _handler_kind(args[hidx]) if len(args) > hidx else 'unknown'
+        st.setdefault('sig_sites_done', set()).add((it.unit.name, n.line))
+        if isinstance(sig, int) and not isinstance(sig, bool):
+            st.setdefault('disp', {})[sig] = h
+            ctx.note('%s(%d, %s)' % (n.callee(), sig, h if isinstance(h, str) else h[1]))
+        elif h == 'dfl':
+            # some signal is reset to its default action: what this path set explicitly may or may not be undone
+            d = st.setdefault('disp', {})
+            for k in list(d):
+                if d[k] != 'dfl':
+                    d[k] = 'unknown'
+        else:
+            st['disp_all'] = 'unknown'
+            st['disp'] = {}
+        return _opaque_call(it, ctx, n, args)
+
+    def m_sigaction(it, ctx, n, args):
+        st = proc_state(ctx)
+        sig = args[0] if args else None
+        act = args[1] if len(args) > 1 else None
+        st.setdefault('sig_sites_done', set()).add((it.unit.name, n.line))
+        if isinstance(act, int) and not isinstance(act, bool) and act == 0:
+            return _opaque_call(it, ctx, n, args)       # query only
+        h = 'unknown'
+        if isinstance(act, Obj):
+            try:
+                hu = act.fields.get('__sigaction_handler')
+                hv = hu.fields.get('sa_handler') if isinstance(hu, Obj) else None
+                fl = act.fields.get('sa_flags')
+                if hv is not None and isinstance(fl, int) and not (fl & 0x80000000):    # SA_RESETHAND changes the disposition later
+                    h = _handler_kind(hv)
+            except Exception:
+                h = 'unknown'
+        if isinstance(sig, int) and not isinstance(sig, bool):
+            st.setdefault('disp', {})[sig] = h
+        else:
+            st['disp_all'] = 'unknown'
+            st['disp'] = {}
+        return _opaque_call(it, ctx, n, args)
+
+    def m_selfsig(it, ctx, n, args):
+        """raise / kill / killpg / ...: who receives the signal, and what it does to the receiver"""
+        st = proc_state(ctx)
+        name = n.callee()
+        tidx, sidx = SELF_SIGNAL_FNS[name]
+        sig = args[sidx] if len(args) > sidx else None
+        role = st['role']
+        driver = role != 'child'
+
+        def undecided(why):
+            st.setdefault('sig_undecided', []).append((name, n.line, why))
+            ctx.note('%s(): %s' % (name, why))
+            return _opaque_call(it, ctx, n, args)
+        # ---- receivers
+        if tidx is None:
+            hit = 'self'
+        else:
+            t = args[tidx] if len(args) > tidx else None
+            if not isinstance(t, int) or isinstance(t, bool):
+                return undecided('target process %r is not a known process id' % (t,))
+            if name == 'killpg':
+                t = -t if t > 1 else (0 if t == 0 else None)
+                if t is None:
+                    return undecided('process group 1/negative not understood')
+            if t == own_pid(st):
+                hit = 'self'
+            elif t in (0, -1, -PGRP):
+                hit = 'group'
+            elif driver and t == PID:
+                hit = 'child' if st['children'] > 0 else 'nobody'
+            elif not driver and t == SELF_PID:
+                hit = 'parent'
+            else:
+                return undecided('target process %d is not a known process id' % t)
+        if not isinstance(sig, int) or isinstance(sig, bool):
+            return undecided('signal number %r is not concrete on this path' % (sig,))
+        if sig == 0 or hit in ('child', 'nobody'):
+            ctx.emit('call', name, args, n.line, 0)
+            return 0
+        # ---- disposition in the receiving process(es): what this path set, else what the program start left (default),
+        # unless some other reachable code may have installed something for this signal
+        disp = st.get('disp', {}).get(sig)
+        if disp is None and st.get('disp_all', 'dfl') != 'dfl':
+            disp = 'unknown'
+        if disp is None:
+            may = getattr(it, 'sig_may_install', None)
+            if may is not None and may(sig, st.get('sig_sites_done', ())):
+                disp = 'unknown'
+            else:
+                disp = 'dfl'
+        if sig in SIG_UNBLOCKABLE:
+            disp = 'dfl'
+        if disp == 'unknown':
+            return undecided('the disposition of signal %d at this point is not known' % sig)
+        if disp == 'ign':
+            ctx.emit('call', name, args, n.line, 0)
+            return 0
+        if isinstance(disp, tuple):
+            # a handler function runs in the receiver (child and parent share the dispositions set before fork)
+            u2, fn = it.find_def(disp[1])
+            if fn is None:
+                return undecided('handler %s of signal %d is not defined in this unit' % (disp[1], sig))
+            if hit == 'parent':
+                return undecided('handler %s runs in the driver asynchronously' % disp[1])
+            ctx.note('%s(%d): handler %s runs' % (name, sig, disp[1]))
+            it.call_fn(u2, fn, [sig])
+            return 0
+        # default action
+        if sig in SIG_DEFAULT_HARMLESS:
+            ctx.note('%s(%d): default action does not terminate' % (name, sig))
+            ctx.emit('call', name, args, n.line, 0)
+            return 0
+        if not driver and hit in ('parent', 'group'):
+            st['child_signals_driver'] = (name, sig, n.line)
+            ctx.note('%s(%d) from the child terminates the driver' % (name, sig))
+            if hit == 'parent':
+                ctx.emit('call', name, args, n.line, 0)
+                return 0
+        st['killed_by'] = sig
+        ctx.note('%s(%d): default action terminates the calling process, no exit handler runs' % (name, sig))
+        raise NoReturn(name, args, n.line)
+
     def m_calloc(it, ctx, n, args):
         return Arr([], label=ctx.fresh('calloc'))
 
@@ -345,6 +514,15 @@ def make_interp(P, unit, opaque=(), extra_models=None, loop_limit=1, globals_=No
         models[f] = m_spawn
     for f in SYSTEM_FNS:
         models[f] = m_system
+    for f in SELF_SIGNAL_FNS:
+        models[f] = m_selfsig
+    for f in SIGNAL_SET_FNS:
+        models[f] = m_signal
+    for f in SIGACTION_FNS:
+        models[f] = m_sigaction
+    models['getpid'] = m_getpid
+    models['getppid'] = m_getppid
+    models['getpgrp'] = m_getpgrp
     models['calloc'] = m_calloc
     models['malloc'] = m_calloc
     models['memcpy'] = m_nop
